@@ -132,6 +132,9 @@ func main() {
 			}
 		}()
 		globalNormalise(c)
+		// the root package additionally gets the finer normalisation written for C01/C07 (closures, tables, phase
+		// splits, colliding helper names — only constructs that are new relative to the reference tree)
+		c01Normalise(c)
 	}()
 	func() {
 		defer func() {
